@@ -390,6 +390,43 @@ Section Hash.
       apply hash_struct_inj in E. simpl in E. injection E as E. unfold hash_file_base in E. simpl in E.
       apply hash_struct_inj in E. discriminate E.
   Qed.
+  (** * The hashing walk of a Dir must cover its listing *)
+  Lemma hash_dir_uses_listing v fs d :
+    hash_dir H v FBase fs d = Some (dir_hash_with H dir_listing (bn_dir FBase) fs d).
+  Proof. reflexivity. Qed.
+
+  Lemma map_BStr_inj l l' : map BStr l = map BStr l' -> l = l'.
+  Proof.
+    revert l'. induction l as [|x l IH]; intros [|y l']; simpl; try discriminate; auto.
+    intros [= -> E]. f_equal. auto.
+  Qed.
+
+  (** if the walk covers the listing and the Dir hash is unchanged, the recorded stat-hash of every
+      listed member is still the hash of some walked file: no member was deleted or altered *)
+  Theorem dir_hash_covers_listing walk bn fs fs' d :
+    incl (dir_listing fs d) (walk fs d) ->
+    dir_hash_with H walk bn fs d = dir_hash_with H walk bn fs' d ->
+    forall e, In e (dir_listing fs d) ->
+      In (hash_file_base H fs (fst e)) (map (fun e' => hash_file_base H fs' (fst e')) (walk fs' d)).
+  Proof.
+    intros Hincl E e Hin. unfold dir_hash_with, set_struct in E. apply hash_struct_inj in E.
+    injection E as E. apply map_BStr_inj in E.
+    assert (P : Permutation (map (fun e0 => hash_file_base H fs (fst e0)) (walk fs d))
+                            (map (fun e' => hash_file_base H fs' (fst e')) (walk fs' d))).
+    { eapply perm_trans; [apply Permutation_sym, sort_bytes_perm|]. rewrite E. apply sort_bytes_perm. }
+    eapply Permutation_in; [exact P|]. apply in_map_iff. exists e. split; auto.
+  Qed.
+
+  (** a walk that does not descend (here: direct children only) misses a change below a sub-directory *)
+  Definition walk_flat (fs : fsys) (d : dpath) : list (fpath * fnode) := members fs d false.
+  Theorem walk_skipping_refuted : exists fs fs' d e,
+    In e (dir_listing fs d) /\ fs_get fs' (fst e) = None /\
+    dir_hash_with H walk_flat (bn_dir FBase) fs d = dir_hash_with H walk_flat (bn_dir FBase) fs' d.
+  Proof.
+    exists [(mkF [0%nat] 0%nat, mkN [] 0%Z); (mkF [0%nat; 1%nat] 0%nat, mkN [] 0%Z)],
+           [(mkF [0%nat] 0%nat, mkN [] 0%Z)], [0%nat], (mkF [0%nat; 1%nat] 0%nat, mkN [] 0%Z).
+    split; [simpl; auto|]. split; reflexivity.
+  Qed.
 End Hash.
 
 (** as shipped, a ContentFile on a missing path has no hash (for every hash function) *)
